@@ -25,7 +25,8 @@ RULE = ('Lane inputs: for each monitor kind (dt_off, dt_on, ct_off, ct_on) a gen
         'of generated cases (multi-variable, sub-specifications, io declarations) is executed in sub-processes with PYTHONHASHSEED in '
         '{0,1,2,random} and the JSON outputs are compared byte-wise. Lane after_failure: an offline object with sub-specifications whose last '
         'requirement divides by / takes the root of a signal; history [evaluate(A)], evaluate(B) with B making that operation raise after the '
-        'earlier requirements were evaluated, evaluate(A): result and get_value of every name equal those of a fresh object (and the first result). Non-trivial = inputs: bounded future operator over a bare variable '
+        'earlier requirements were evaluated, evaluate(A): result and get_value of every name equal those of a fresh object (and the first result). '
+        'Lane explain_between: evaluate(A), explain(), evaluate(A), explain(), evaluate(B), explain(), evaluate(A) on one discrete offline object under drawn sampling periods / units: every result equals that of a fresh object. Non-trivial = inputs: bounded future operator over a bare variable '
         'or n <= bound; repeat: temporal operator and A != B; isolation: >= 2 objects with stateful operators actually interleaved; '
         'distinct = distinct case digests.')
 
@@ -411,6 +412,75 @@ def inputs_cases(draw, tier):
     return draw(one_object(kind, bare=True))
 
 
+# ---- explain() in between ----------------------------------------------------------------------------------------
+
+@st.composite
+def explain_between_cases(draw, tier):
+    """evaluate(A), explain(), evaluate(A) [, evaluate(B), explain(), evaluate(A)] on one discrete-time offline object, with
+    sampling periods and units other than the default ones: explain() is a query and leaves later results alone."""
+    from . import C20
+    c = draw(C20.cases(tier, False))
+    c['timing'] = draw(C20.TIMINGS.filter(lambda t: t is not None)) if draw(st.integers(0, 3)) else None
+    n = len(next(iter(c['trace'].values())))
+    c['other'] = draw(F.traces(c['vars'], n=n))
+    return c
+
+
+def check_explain_between(case):
+    f = from_json(case['formula'])
+    vs = [v for v in case['vars'] if v in F.fvars(f)]
+    labels = ['lane:explain_between'] + feature_labels(f)
+    if not vs:
+        return DISCARD('no-variable', labels)
+    timing = case.get('timing')
+    n = len(case['trace'][vs[0]])
+    if timing:
+        pms = timing['period_ms']
+        text = 'out = ' + show(f, lambda a, b: '[%dms,%dms]' % (a * pms, b * pms))
+        pv, pu = (pms, 'ms') if pms % 1000 else (pms // 1000, 's')
+        kw = dict(unit=timing['unit'], period=(pv, pu, 0.1))
+        tcol = [i * pms / {'s': 1000.0, 'ms': 1.0}[timing['unit']] for i in range(n)]
+        labels.append('period:%dms' % pms)
+    else:
+        text = 'out = ' + show(f)
+        kw = {}
+        tcol = [float(i) for i in range(n)]
+
+    def data(tr):
+        ds = {'time': list(tcol)}
+        for v in vs:
+            ds[v] = [float(x) for x in tr[v]]
+        return ds
+    try:
+        spec = build('dt_off', text, vs, **kw)
+        r1 = copy.deepcopy(spec.evaluate(data(case['trace'])))
+        rb = copy.deepcopy(build('dt_off', text, vs, **kw).evaluate(data(case['other'])))
+    except Exception as e:  # noqa
+        return DISCARD('raises(C17):' + type(e).__name__, labels)
+    explained = 0
+    steps = [('A', case['trace'], r1), ('B', case['other'], rb), ('A', case['trace'], r1)]
+    hist = ['evaluate(A)']
+    for name, tr, want in steps:
+        try:
+            spec.explain()
+            explained += 1
+            hist.append('explain()')
+        except Exception as e:  # noqa
+            hist.append('explain() raised %s' % type(e).__name__)
+        try:
+            got = copy.deepcopy(spec.evaluate(data(tr)))
+        except Exception as e:  # noqa
+            o = exc_outcome(e)
+            return FAIL('raises-after-explain', 'spec: %s  %s\nA: %s\nB: %s\nhistory: %s, then evaluate(%s) raised %s: %s at %s' % (
+                text, timing, case['trace'], case['other'], hist, name, o[1], o[3], o[4]), labels)
+        hist.append('evaluate(%s)' % name)
+        if json.dumps(jsonable(got)) != json.dumps(jsonable(want)):
+            return FAIL('result-after-explain', 'spec: %s  %s\nA: %s\nB: %s\nhistory: %s\nlast result: %r\nfresh object on the same data: %r' % (
+                text, timing, case['trace'], case['other'], hist, got, want), labels)
+    bounded = any(s[0] == 'tun' for s in F.subterms(f))
+    return PASS(explained >= 1 and bounded, labels)
+
+
 # ---- a failed evaluation in between -----------------------------------------------------------------------------
 
 FAULT_VAR = 'zz'
@@ -532,6 +602,7 @@ def cand_after_failure(case):
 
 
 LANES = [
+    Lane('explain_between', lambda tier: explain_between_cases(tier), check_explain_between, 1200, 15000, None),
     Lane('after_failure', lambda tier: after_failure_cases(tier), check_after_failure, 1500, 20000, cand_after_failure),
     Lane('inputs_chunked', lambda tier: chunked_inputs_cases(tier), check_inputs, 1500, 20000, cand_obj),
     Lane('inputs', lambda tier: inputs_cases(tier), check_inputs, 4000, 50000, cand_obj),
